@@ -122,3 +122,13 @@ pub fn check_trace(
     }
     (failures, evals, aux)
 }
+
+/// mnemonic-free opcode (7 op bits, decoder columns 9..16) of the operation executed at `row`
+pub fn opcode_at(trace: &ExecutionTrace, row: usize) -> u64 {
+    let m = trace.main_segment();
+    let mut v = 0u64;
+    for b in 0..7 {
+        v |= (vm_core::StarkField::as_int(&m.get(9 + b, row)) & 1) << b;
+    }
+    v
+}
